@@ -15,7 +15,10 @@ ORACLE_RND = T(
      dict(n=60, len=40, procs=7, cfg="users=3,provs=2,funds=45,maxfeeds=2,maxtimeout=2" + _NOF15)])
 ORACLE_GEN = T([dict(cfg="GEN_Oracle.cfg", num=14, depth=24, seeds=10)],
                [dict(cfg="GEN_Oracle.cfg", num=60, depth=28, seeds=14)])
-ORACLE_MC = T([dict(cfg="MC_Oracle.cfg", timeout=1500)], [dict(cfg="MC_Oracle_big.cfg", timeout=3400)])
+ORACLE_MC = T([dict(cfg="MC_Oracle.cfg", timeout=1500)],
+              [dict(cfg="MC_Oracle_big.cfg", timeout=3400),
+               # two feeds of one creator competing for the same funds (automatic pause in context-id order)
+               dict(cfg="MC_Oracle_2feeds.cfg", timeout=3400)])
 ORACLE_GEN_CFG = "users=2,provs=2,funds=60,maxtimeout=2,price=10" + _NOF15
 # fixed coverage suite (every required antecedent, whatever the seed) + the scenario of known finding F15
 ORACLE_SCN = [dict(file="scenarios/oracle_cover.ndjson", cfg="users=2,provs=2,funds=60,maxtimeout=2,price=10")]
